@@ -1,0 +1,100 @@
+//go:build verif
+// +build verif
+
+package jmespath
+
+import (
+	"encoding/json"
+	"fmt"
+	"strconv"
+	"strings"
+)
+
+// This file is only compiled with the "verif" build tag. It gives external
+// verification harnesses a stable, canonical view of a parsed expression.
+// Nothing in the library calls it and it adds no state.
+
+// VerifAST returns the AST held by a compiled expression.
+func VerifAST(jp *JMESPath) ASTNode {
+	return jp.ast
+}
+
+// VerifSexpr renders an AST as a canonical s-expression: node type, a
+// type-tagged value, children in order. Slice bounds are dereferenced
+// (PrettyPrint would print pointer addresses).
+func VerifSexpr(node ASTNode) string {
+	var sb strings.Builder
+	verifSexpr(&sb, node)
+	return sb.String()
+}
+
+func verifSexpr(sb *strings.Builder, node ASTNode) {
+	sb.WriteByte('(')
+	sb.WriteString(node.nodeType.String())
+	switch node.nodeType {
+	case ASTField, ASTKeyValPair, ASTFunctionExpression:
+		if s, ok := node.value.(string); ok {
+			sb.WriteByte(' ')
+			sb.WriteString(strconv.Quote(s))
+		} else {
+			fmt.Fprintf(sb, " #<%T>", node.value)
+		}
+	case ASTIndex:
+		if i, ok := node.value.(int); ok {
+			sb.WriteByte(' ')
+			sb.WriteString(strconv.Itoa(i))
+		} else {
+			fmt.Fprintf(sb, " #<%T>", node.value)
+		}
+	case ASTSlice:
+		if parts, ok := node.value.([]*int); ok {
+			sb.WriteString(" [")
+			for i, p := range parts {
+				if i > 0 {
+					sb.WriteByte(':')
+				}
+				if p == nil {
+					sb.WriteByte('_')
+				} else {
+					sb.WriteString(strconv.Itoa(*p))
+				}
+			}
+			sb.WriteByte(']')
+		} else {
+			fmt.Fprintf(sb, " #<%T>", node.value)
+		}
+	case ASTComparator:
+		if t, ok := node.value.(tokType); ok {
+			sb.WriteByte(' ')
+			sb.WriteString(t.String())
+		} else {
+			fmt.Fprintf(sb, " #<%T>", node.value)
+		}
+	case ASTLiteral:
+		b, err := json.Marshal(node.value)
+		if err != nil {
+			fmt.Fprintf(sb, " #<%T>", node.value)
+		} else {
+			sb.WriteString(" #json:")
+			sb.Write(b)
+		}
+	default:
+		if node.value != nil {
+			fmt.Fprintf(sb, " #<%T>", node.value)
+		}
+	}
+	for _, c := range node.children {
+		sb.WriteByte(' ')
+		verifSexpr(sb, c)
+	}
+	sb.WriteByte(')')
+}
+
+// VerifNodeType returns the name of the node's type.
+func VerifNodeType(node ASTNode) string { return node.nodeType.String() }
+
+// VerifChildren returns the node's children (not a copy).
+func VerifChildren(node ASTNode) []ASTNode { return node.children }
+
+// VerifValue returns the node's value (not a copy).
+func VerifValue(node ASTNode) interface{} { return node.value }
